@@ -333,14 +333,14 @@ static void enumerate(const std::string& T, const SeedKind& kind, bool thorough,
         out.push_back({"file", fmt("NUL byte inserted at %zu", pos), T.substr(0, pos) + std::string(1, '\0') + T.substr(pos)});
         out.push_back({"file", fmt("NUL byte replacing byte %zu", pos), T.substr(0, pos) + std::string(1, '\0') + T.substr(std::min(n, pos + 1))});
       }
-      // very long lines: a 200 000 character token, and a line of 60 000 values, at the start of a few lines
+      // very long lines: a 200 000 character token, and a line of 20 000 values, at the start of a few lines
       std::string longTok(200000, '7'), longLine;
-      for (int i = 0; i < 60000; i++) longLine += "1 ";
+      for (int i = 0; i < 20000; i++) longLine += "1 ";
       for (size_t l = 0; l < lines.size(); l += std::max<size_t>(1, lines.size() / 6))
       {
         size_t b = lines[l].first;
         out.push_back({"file", fmt("200000-character token at line %zu", l + 1), T.substr(0, b) + longTok + " " + T.substr(b)});
-        out.push_back({"file", fmt("60000 values prepended to line %zu", l + 1), T.substr(0, b) + longLine + T.substr(b)});
+        out.push_back({"file", fmt("20000 values prepended to line %zu", l + 1), T.substr(0, b) + longLine + T.substr(b)});
         out.push_back({"file", fmt("3000-character comment at line %zu", l + 1), T.substr(0, b) + "# " + std::string(3000, 'c') + "\n" + T.substr(b)});
       }
     }
@@ -434,8 +434,12 @@ static std::string postLoad(const SeedKind& kind, const Obj& o, int wfd)
     kind.post->exercise(o.get(), cmp);
     if (db != nullptr)
     {
+      // structural rules only: the name -> column designation rules depend on names being read as regular expressions,
+      // which an API-built Db with the same names shares (not a property of the loader)
       c07::DbInvOptions opt;
-      for (auto& v : c07::collectDbViolations(db, opt)) cmp.fail("c07-" + v.rule, v.detail);
+      opt.names = false;
+      for (auto& v : c07::collectDbViolations(db, opt))
+        if (v.rule != "name-designation" && v.rule != "name-regex-ambiguous") cmp.fail("c07-" + v.rule, v.detail);
     }
   }
   writeAll(wfd, "Q\n");
